@@ -10,7 +10,9 @@
 //!   impl_out.txt   `T <canonical type>` | `REJECT` per term
 //!   cases.txt      the Gluon source of each term (one line)
 //!   impl_raw.txt   the type as printed by gluon (one line) or the first line of the error
-//!   meta.txt       one line per metamorphic disagreement: kind \t source \t result \t variant source \t variant result
+//!   tags.txt       syntactic feature tags of each term (fix / polyfield / openrow / core)
+//!   meta.txt       one line per metamorphic disagreement:
+//!                  kind \t tags \t source \t result \t variant source \t variant result \t variant raw
 //!   stats.json
 use gluon::ThreadExt;
 use gvh::out::{fnv, Args, Hist};
@@ -62,6 +64,94 @@ fn size(e: &E) -> usize {
         E::Rec(fs) => 1 + fs.iter().map(|(_, e)| size(e)).sum::<usize>(),
         E::Arr(es) => 1 + es.iter().map(size).sum::<usize>(),
     }
+}
+
+/// Syntactic features used to group disagreements by the mechanism they exercise (they never
+/// influence what is generated or compared):
+///   fix       the term contains a `rec let`
+///   polyfield some record/tuple field is not syntactically monomorphic (gluon generalises
+///             record fields when the record is built, typecheck.rs:1147)
+///   openrow   some projection goes through something that is not a record literal, i.e. through a
+///             row variable (unify_type.rs unify_rows)
+fn mono_syntactic(e: &E, lambda_bound: &Vec<u32>) -> bool {
+    match e {
+        E::I | E::S | E::Eq(_, _) => true,
+        E::V(k) => lambda_bound.contains(k),
+        E::If(_, a, b) => mono_syntactic(a, lambda_bound) && mono_syntactic(b, lambda_bound),
+        E::Rec(fs) => fs.iter().all(|(_, e)| mono_syntactic(e, lambda_bound)),
+        E::Arr(es) => !es.is_empty() && es.iter().all(|e| mono_syntactic(e, lambda_bound)),
+        E::Proj(e, _) => mono_syntactic(e, lambda_bound),
+        _ => false,
+    }
+}
+fn features(e: &E, lambda_bound: &mut Vec<u32>, out: &mut (bool, bool, bool)) {
+    match e {
+        E::I | E::S | E::V(_) => {}
+        E::Lam(x, b) => {
+            lambda_bound.push(*x);
+            features(b, lambda_bound, out);
+            lambda_bound.pop();
+        }
+        E::Fix(f, x, b) => {
+            out.0 = true;
+            lambda_bound.push(*f);
+            lambda_bound.push(*x);
+            features(b, lambda_bound, out);
+            lambda_bound.pop();
+            lambda_bound.pop();
+        }
+        E::Let(x, a, b) => {
+            features(a, lambda_bound, out);
+            // a let-bound variable shadows a lambda-bound one of the same name
+            let saved: Vec<u32> = lambda_bound.clone();
+            lambda_bound.retain(|y| y != x);
+            features(b, lambda_bound, out);
+            *lambda_bound = saved;
+        }
+        E::App(a, b) | E::Eq(a, b) => {
+            features(a, lambda_bound, out);
+            features(b, lambda_bound, out)
+        }
+        E::If(c, a, b) => {
+            features(c, lambda_bound, out);
+            features(a, lambda_bound, out);
+            features(b, lambda_bound, out)
+        }
+        E::Rec(fs) => {
+            for (_, f) in fs {
+                if !mono_syntactic(f, lambda_bound) {
+                    out.1 = true;
+                }
+                features(f, lambda_bound, out)
+            }
+        }
+        E::Proj(b, _) => {
+            if !matches!(**b, E::Rec(_)) {
+                out.2 = true;
+            }
+            features(b, lambda_bound, out)
+        }
+        E::Arr(es) => {
+            for e in es {
+                features(e, lambda_bound, out)
+            }
+        }
+    }
+}
+fn feature_tags(e: &E) -> String {
+    let mut f = (false, false, false);
+    features(e, &mut vec![], &mut f);
+    let mut tags = vec![];
+    if f.0 {
+        tags.push("fix")
+    }
+    if f.1 {
+        tags.push("polyfield")
+    }
+    if f.2 {
+        tags.push("openrow")
+    }
+    if tags.is_empty() { "core".to_string() } else { tags.join("+") }
 }
 
 fn model_tokens(e: &E, out: &mut String) {
@@ -542,9 +632,13 @@ fn canonical_type(printed: &str) -> String {
 
 // ---------------------------------------------------------------- implementation
 
+/// The type checker runs in a child process (`c03 child`): it can exhaust the native stack
+/// (e.g. on `rec let f = \x -> (f 1, 2) in f`), which aborts the process.  Protocol: one source
+/// per line on stdin; one reply line `T\t<printed type>` | `R\t<message>` | `P` on stdout.
 struct Impl {
-    vm: gluon::RootedThread,
+    child: Option<(std::process::Child, std::process::ChildStdin, std::sync::mpsc::Receiver<String>)>,
     n: u64,
+    crashes: u64,
 }
 
 #[derive(Clone, Debug, PartialEq)]
@@ -552,6 +646,7 @@ enum Outcome {
     Type { printed: String, canon: String },
     Reject(String),
     Panic,
+    Crash,
 }
 
 impl Outcome {
@@ -560,6 +655,7 @@ impl Outcome {
             Outcome::Type { canon, .. } => format!("T {}", canon),
             Outcome::Reject(_) => "REJECT".into(),
             Outcome::Panic => "PANIC".into(),
+            Outcome::Crash => "CRASH".into(),
         }
     }
     fn raw(&self) -> String {
@@ -567,44 +663,122 @@ impl Outcome {
             Outcome::Type { printed, .. } => printed.clone(),
             Outcome::Reject(m) => format!("error: {}", m),
             Outcome::Panic => "panic".into(),
+            Outcome::Crash => "process aborted or hung (stack overflow?)".into(),
         }
     }
 }
 
-impl Impl {
-    fn fresh_vm() -> gluon::RootedThread {
+fn child_main() {
+    let fresh_vm = || {
         let vm = gluon::VmBuilder::new().build();
         vm.get_database_mut().implicit_prelude(false);
         vm
-    }
-    fn new() -> Impl {
-        Impl { vm: Impl::fresh_vm(), n: 0 }
-    }
-    fn check(&mut self, src: &str) -> Outcome {
-        self.n += 1;
+    };
+    let mut vm = fresh_vm();
+    let stdin = std::io::stdin();
+    let stdout = std::io::stdout();
+    let mut n = 0u64;
+    for line in stdin.lock().lines() {
+        let src = match line {
+            Ok(l) => l,
+            Err(_) => break,
+        };
+        n += 1;
         // the compiler database keeps one file map per module: renew the VM regularly
-        if self.n % 2000 == 0 {
-            self.vm = Impl::fresh_vm();
+        if n % 2000 == 0 {
+            vm = fresh_vm();
         }
-        let name = format!("c03_{}", self.n);
-        let vm = &self.vm;
-        let r = std::panic::catch_unwind(std::panic::AssertUnwindSafe(|| vm.typecheck_str(&name, src, None)));
-        match r {
-            Ok(Ok((_, t))) => {
-                let printed = format!("{}", t).split_whitespace().collect::<Vec<_>>().join(" ");
-                let canon = canonical_type(&printed);
-                Outcome::Type { printed, canon }
-            }
+        let name = format!("c03_{}", n);
+        let r = std::panic::catch_unwind(std::panic::AssertUnwindSafe(|| vm.typecheck_str(&name, &src, None)));
+        let reply = match r {
+            Ok(Ok((_, t))) => format!("T\t{}", format!("{}", t).split_whitespace().collect::<Vec<_>>().join(" ")),
             Ok(Err(e)) => {
                 let msg = format!("{}", e);
                 let first: Vec<&str> = msg.lines().map(|l| l.trim()).filter(|l| !l.is_empty()).take(3).collect();
-                Outcome::Reject(first.join(" | "))
+                format!("R\t{}", first.join(" | ").replace('\t', " "))
             }
             Err(_) => {
-                self.vm = Impl::fresh_vm();
-                Outcome::Panic
+                vm = fresh_vm();
+                "P".to_string()
+            }
+        };
+        let mut o = stdout.lock();
+        writeln!(o, "{}", reply).unwrap();
+        o.flush().unwrap();
+    }
+}
+
+impl Impl {
+    fn new() -> Impl {
+        Impl { child: None, n: 0, crashes: 0 }
+    }
+    fn spawn(&mut self) {
+        let exe = std::env::current_exe().expect("current_exe");
+        let mut c = std::process::Command::new(exe)
+            .arg("child")
+            .stdin(std::process::Stdio::piped())
+            .stdout(std::process::Stdio::piped())
+            .stderr(std::process::Stdio::null())
+            .spawn()
+            .expect("spawn child");
+        let stdin = c.stdin.take().unwrap();
+        let stdout = c.stdout.take().unwrap();
+        let (tx, rx) = std::sync::mpsc::channel();
+        std::thread::spawn(move || {
+            for l in std::io::BufReader::new(stdout).lines() {
+                match l {
+                    Ok(l) => {
+                        if tx.send(l).is_err() {
+                            break;
+                        }
+                    }
+                    Err(_) => break,
+                }
+            }
+        });
+        self.child = Some((c, stdin, rx));
+    }
+    fn kill(&mut self) {
+        if let Some((mut c, _, _)) = self.child.take() {
+            let _ = c.kill();
+            let _ = c.wait();
+        }
+    }
+    fn check(&mut self, src: &str) -> Outcome {
+        self.n += 1;
+        if self.child.is_none() {
+            self.spawn();
+        }
+        let reply = {
+            let (_, stdin, rx) = self.child.as_mut().unwrap();
+            let sent = writeln!(stdin, "{}", src).and_then(|_| stdin.flush());
+            match sent {
+                Err(_) => None,
+                Ok(()) => rx.recv_timeout(std::time::Duration::from_secs(30)).ok(),
+            }
+        };
+        match reply {
+            None => {
+                self.crashes += 1;
+                self.kill();
+                Outcome::Crash
+            }
+            Some(r) => {
+                if let Some(printed) = r.strip_prefix("T\t") {
+                    Outcome::Type { printed: printed.to_string(), canon: canonical_type(printed) }
+                } else if let Some(m) = r.strip_prefix("R\t") {
+                    Outcome::Reject(m.to_string())
+                } else {
+                    Outcome::Panic
+                }
             }
         }
+    }
+}
+
+impl Drop for Impl {
+    fn drop(&mut self) {
+        self.kill();
     }
 }
 
@@ -890,6 +1064,10 @@ fn parse_term_line(line: &str) -> Option<E> {
 const UNUSED: [&str; 4] = ["0", "\\zq -> zq", "{ a = \"u\" }", "[]"];
 
 fn main() {
+    if std::env::args().nth(1).as_deref() == Some("child") {
+        child_main();
+        return;
+    }
     let args = Args::parse();
     let mut imp = Impl::new();
 
@@ -913,6 +1091,7 @@ fn main() {
     let mut cases = args.file("cases.txt");
     let mut raw = args.file("impl_raw.txt");
     let mut meta = args.file("meta.txt");
+    let mut tagsf = args.file("tags.txt");
     let mut hist = Hist::default();
     let mut distinct = std::collections::HashSet::new();
     let mut n_cases = 0u64;
@@ -934,6 +1113,9 @@ fn main() {
         writeln!(impl_out, "{}", o.line()).unwrap();
         writeln!(cases, "{}", src).unwrap();
         writeln!(raw, "{}", o.raw()).unwrap();
+        let tags = feature_tags(e);
+        writeln!(tagsf, "{}", tags).unwrap();
+        hist.add(&format!("tags:{}", tags));
         n_cases += 1;
         hist.add(&format!("family:{}", family));
         hist.add(&format!("size:{}", size(e)));
@@ -941,6 +1123,7 @@ fn main() {
             Outcome::Type { .. } => "impl:accept",
             Outcome::Reject(_) => "impl:reject",
             Outcome::Panic => "impl:panic",
+            Outcome::Crash => "impl:crash",
         });
         if size(e) >= 3 && distinct.insert(fnv(m.as_bytes())) {
             nontrivial += 1;
@@ -953,7 +1136,13 @@ fn main() {
         variants.push(("meta-alpha", source(e, Naming::Unique)));
         variants.push(("meta-unused", format!("let zz_u = {} in {}", UNUSED[(fnv(src.as_bytes()) % 4) as usize], src)));
         if let Outcome::Type { printed, .. } = &o {
-            variants.push(("meta-annot", format!("let zz_it : {} = {} in zz_it", printed, src)));
+            // without the prelude the Bool type has no name in scope (`std.types.Bool` is printed,
+            // which does not resolve), so types mentioning it cannot be written as an annotation
+            if printed.contains("std.types.Bool") {
+                hist.add("meta-annot:skipped-bool");
+            } else {
+                variants.push(("meta-annot", format!("let zz_it : {} = {} in zz_it", printed, src)));
+            }
         }
         for (kind, vsrc) in variants {
             let vo = imp.check(&vsrc);
@@ -961,7 +1150,7 @@ fn main() {
             if vo.line() != o.line() {
                 n_meta_bad += 1;
                 hist.add(&format!("{}:disagree", kind));
-                writeln!(meta, "{}\t{}\t{}\t{}\t{} [{}]", kind, src, o.line(), vsrc, vo.line(), vo.raw()).unwrap();
+                writeln!(meta, "{}\t{}\t{}\t{}\t{}\t{}\t{}", kind, tags, src, o.line(), vsrc, vo.line(), vo.raw()).unwrap();
             }
         }
     };
@@ -1006,17 +1195,127 @@ fn main() {
         emit(&e, if biased { "random-shaped" } else { "random-uniform" }, &mut hist, &mut imp);
     }
 
+    // Family 3: row interactions.  \\r -> \\s -> let u = (P1, P2) in if 1 #Int== 1 then X else Y
+    // with P in {r.a, r.b, s.a, s.b, r.c, 1} and X, Y in {r, s, record literals}; optionally applied
+    // to two record literals.  Exhaustive over the template in the thorough tier, sampled in quick.
+    {
+        let r = || E::V(0);
+        let sv = || E::V(1);
+        let projs: Vec<E> = vec![
+            E::Proj(Box::new(r()), 0),
+            E::Proj(Box::new(r()), 1),
+            E::Proj(Box::new(sv()), 0),
+            E::Proj(Box::new(sv()), 1),
+            E::Proj(Box::new(r()), 2),
+            E::I,
+        ];
+        let lits: Vec<E> = vec![
+            E::Rec(vec![(0, E::I), (1, E::S)]),
+            E::Rec(vec![(1, E::S), (0, E::I)]),
+            E::Rec(vec![(0, E::I)]),
+            E::Rec(vec![(0, E::I), (1, E::S), (2, E::I)]),
+        ];
+        let mut branches: Vec<E> = vec![r(), sv()];
+        branches.extend(lits.iter().cloned());
+        let cond = || E::Eq(Box::new(E::I), Box::new(E::I));
+        let mut all = vec![];
+        for p1 in &projs {
+            for p2 in &projs {
+                for x in &branches {
+                    for y in &branches {
+                        let body = E::Let(
+                            2,
+                            Box::new(E::Rec(vec![(3, p1.clone()), (4, p2.clone())])),
+                            Box::new(E::If(Box::new(cond()), Box::new(x.clone()), Box::new(y.clone()))),
+                        );
+                        let f = E::Lam(0, Box::new(E::Lam(1, Box::new(body))));
+                        all.push(f.clone());
+                        for a1 in &lits {
+                            for a2 in &lits {
+                                all.push(E::App(Box::new(E::App(Box::new(f.clone()), Box::new(a1.clone()))), Box::new(a2.clone())));
+                            }
+                        }
+                    }
+                }
+            }
+        }
+        let keep: u64 = if args.thorough() { 1 } else { 6 };
+        for (i, e) in all.iter().enumerate() {
+            if keep == 1 || (fnv(format!("{}:{}", args.seed, i).as_bytes()) % keep) == 0 {
+                emit(e, "row-template", &mut hist, &mut imp);
+            }
+        }
+    }
+
+    // Family 4: containers whose fields are polymorphic functions (gluon generalises record fields
+    // when the record is built), joined by if / array / a lambda-bound function, or consumed at
+    // two instances.
+    {
+        let lam = |b: E| E::Lam(5, Box::new(b));
+        let fields: Vec<E> = vec![
+            lam(E::V(5)),
+            lam(E::I),
+            lam(E::S),
+            E::Lam(5, Box::new(E::Lam(6, Box::new(E::V(5))))),
+            E::Arr(vec![]),
+            E::I,
+        ];
+        let cond = || E::Eq(Box::new(E::I), Box::new(E::I));
+        let mut all = vec![];
+        for container in 0..3u32 {
+            let wrap = |f: &E| match container {
+                0 => E::Rec(vec![(0, f.clone())]),
+                1 => E::Rec(vec![(3, f.clone()), (4, E::I)]),
+                _ => E::Rec(vec![(0, f.clone()), (1, E::S)]),
+            };
+            let l = if container == 1 { 3 } else { 0 };
+            for f1 in &fields {
+                let c1 = wrap(f1);
+                // consumers of one container
+                let use2 = |r: E| E::Rec(vec![
+                    (3, E::App(Box::new(E::Proj(Box::new(r.clone()), l)), Box::new(E::I))),
+                    (4, E::App(Box::new(E::Proj(Box::new(r), l)), Box::new(E::S))),
+                ]);
+                all.push(E::Let(0, Box::new(c1.clone()), Box::new(use2(E::V(0)))));
+                all.push(E::App(Box::new(E::Lam(0, Box::new(use2(E::V(0))))), Box::new(c1.clone())));
+                all.push(E::App(
+                    Box::new(E::Lam(0, Box::new(E::App(Box::new(E::V(0)), Box::new(c1.clone()))))),
+                    Box::new(E::Lam(1, Box::new(E::App(Box::new(E::Proj(Box::new(E::V(1)), l)), Box::new(E::I))))),
+                ));
+                all.push(E::Lam(0, Box::new(E::App(Box::new(E::V(0)), Box::new(c1.clone())))));
+                for f2 in &fields {
+                    let c2 = wrap(f2);
+                    all.push(E::If(Box::new(cond()), Box::new(c1.clone()), Box::new(c2.clone())));
+                    all.push(E::Arr(vec![c1.clone(), c2.clone()]));
+                    all.push(E::Lam(
+                        0,
+                        Box::new(E::Rec(vec![
+                            (3, E::App(Box::new(E::V(0)), Box::new(c1.clone()))),
+                            (4, E::App(Box::new(E::V(0)), Box::new(c2.clone()))),
+                        ])),
+                    ));
+                    all.push(E::Proj(Box::new(E::If(Box::new(cond()), Box::new(c1.clone()), Box::new(c2.clone()))), l));
+                }
+            }
+        }
+        for e in &all {
+            emit(e, "poly-field-template", &mut hist, &mut imp);
+        }
+    }
+
     drop(emit);
     model_in.flush().unwrap();
     impl_out.flush().unwrap();
     cases.flush().unwrap();
     raw.flush().unwrap();
     meta.flush().unwrap();
+    tagsf.flush().unwrap();
     gvh::out::write_json(
         &args.out.join("stats.json"),
         &serde_json::json!({
             "evaluations": n_cases,
             "typechecks": imp.n,
+            "impl_crashes": imp.crashes,
             "distinct_nontrivial": nontrivial,
             "rule": "closed terms of the ML fragment; exhaustive = every term with at most `exhaustive_maxsize` nodes over {1, \"s\", variables, \\x->e, application, let, if, #Int==, pair, {a=e}, {a=e,b=e}, e.a, e.b} with at most `exhaustive_maxdepth` nested binders (binder names canonical); random = 5..10 nodes over the full alphabet; non-trivial = at least 3 nodes, distinct by term",
             "exhaustive_maxsize": maxsize,
